@@ -97,7 +97,7 @@ def gen_pairs(tier, rng):
     for r in (10, 26, 27):
         yield (0x401000, A64INIT + r)
         yield (0x401000, (~(A64INIT + r)) & M64)
-    n = 2000 if tier == 'quick' else 2_000_000
+    n = 2000 if tier == 'quick' else 1_200_000
     for _ in range(n):
         f = rng.next()
         mode = rng.below(4)
@@ -443,15 +443,16 @@ def run_once(binary, test, ops_path, out_path, timeout):
 
 
 def run_emit(bins, ops, sc, what='emit'):
-    """Run ops through every emit probe (one retry each on a non-zero exit / timeout) and through the model driver."""
+    """Run ops through every emit probe (one retry each on a non-zero exit / timeout) and through the model driver;
+    the six processes run side by side."""
+    from concurrent.futures import ThreadPoolExecutor
     ops_path = sc.path(f'{what}.ops')
     with open(ops_path, 'w') as f:
         f.write('\n'.join(ops) + '\n')
-    impl = [None] * len(ops)
-    for p in bins:
-        if 'emit' not in p['lanes']:
-            continue
+
+    def one(p):
         outp = sc.path(f'{what}.{p["tag"]}.impl')
+        rc, log = 1, ''
         for attempt in (1, 2):
             rc, log = run_once(p['bin'], 'TestVerifC15', ops_path, outp, 1800)
             if rc == 0:
@@ -466,10 +467,18 @@ def run_emit(bins, ops, sc, what='emit'):
                 C.log(f'C15: probe {p["tag"]} rc={rc}, attempt {attempt}')
         if rc != 0:
             raise C.Infra(f'probe {p["tag"]} failed twice rc={rc}:\n{log[-2000:]}')
-        for i, v in enumerate(C.read_indexed(outp, len(ops))):
-            if v is not None:
-                impl[i] = v
-    return impl, run_model(ops_path, sc, what)
+        return C.read_indexed(outp, len(ops))
+
+    impl = [None] * len(ops)
+    with ThreadPoolExecutor(max_workers=6) as ex:
+        fm = ex.submit(run_model, ops_path, sc, what)
+        futs = [ex.submit(one, p) for p in bins if 'emit' in p['lanes']]
+        for fu in futs:
+            for i, v in enumerate(fu.result()):
+                if v is not None:
+                    impl[i] = v
+        model = fm.result()
+    return impl, model
 
 
 _DRIVER = {}
@@ -572,6 +581,37 @@ def emit_stream(tier, rng):
             yield op
 
 
+def regen(sc):
+    """C.regen with per-process scratch names (translator binary, output directory), so that concurrent runs do not
+    delete each other's files.  The generated text only depends on the tree, so writing Gen/ from two runs is harmless."""
+    import shutil
+    gen = sc.path('gen')
+    rc, o, e = C.sh(['go', 'build', '-o', gen, '.'], cwd=os.path.join(C.VERIF, 'tools', 'gen'), env=C.goenv())
+    if rc != 0:
+        raise C.Infra('building tools/gen failed:\n' + e)
+    tmp = sc.path('gen-out')
+    shutil.rmtree(tmp, ignore_errors=True)
+    os.makedirs(tmp)
+    try:
+        rc, o, e = C.sh([gen, '-repo', C.REPO, '-spec', os.path.join(C.VERIF, 'tools', 'gen', 'spec.json'), '-out', tmp, '-only', ','.join(GEN)])
+        changed = []
+        os.makedirs(C.GEN_DIR, exist_ok=True)
+        for m in GEN:
+            src, dst = os.path.join(tmp, m + '.lean'), os.path.join(C.GEN_DIR, m + '.lean')
+            if not os.path.exists(src):
+                raise C.Infra(f'gen produced no output for {m}: {e}')
+            new = open(src).read()
+            old = open(dst).read() if os.path.exists(dst) else None
+            if new != old:      # keep mtime when unchanged so lake does not rebuild
+                t = dst + f'.{os.getpid()}.tmp'
+                open(t, 'w').write(new)
+                os.replace(t, dst)
+                changed.append(m)
+        return rc == 0, e.strip(), changed
+    finally:
+        shutil.rmtree(tmp, ignore_errors=True)
+
+
 def arm64_origin_guard():
     """A clear message for the day someone implements the arm64 jump back (review A2/D1)."""
     try:
@@ -620,7 +660,7 @@ def run(tier):
 
 def _run(tier, out, sc):
     rng = C.Rng(C.seed()).fork('C15')
-    ok, msg, changed = C.regen(GEN)
+    ok, msg, changed = regen(sc)
     proof = C.prove('C15', leanchecker=(tier == 'thorough')) if ok else {'ok': False, 'failed': [('translator', msg)], 'obligations': 0,
                                                                             'discharged': 0, 'cmds': [], 'axioms': {}}
     name_failed_theorems(proof)
